@@ -200,7 +200,7 @@ func RunReload(t *testing.T, comp string, create func(path, keyID, password stri
 		pre := cmp.State().intern(in)
 		c.Oracle = Analyse(in, c.New.Bytes(), Password)
 
-		if c.Oracle.Cyclic {
+		if c.Oracle.Cyclic && os.Getenv("C19_FX6") != "1" {
 			continue // must not be run in-process (C19-F6); the ks stream has the witness in a child process
 		}
 
